@@ -25,11 +25,11 @@ def chain_persistent(A, r, upto_conn):
     c = A.conns[r.conn]
     if c.idx == upto_conn.idx:
         return True
-    if c.clean is not False:
+    if c.clean is not False or c.n_connects > 1:      # (several CONNECTs on one connection: session mode ambiguous)
         return False
     x = c.next
     while x is not None:
-        if x.clean is not False and x.connect_pkt is not None:
+        if (x.clean is not False and x.connect_pkt is not None) or x.n_connects > 1:
             return False
         if x.idx == upto_conn.idx:
             return True
